@@ -241,6 +241,12 @@ struct htp_connp_t {
      */
     int64_t out_chunked_length;
 
+    /**
+     * Set while the chunk length line being read is known to start with a
+     * chunk length character. Only used with chunked response bodies.
+     */
+    int out_chunklen_seen;
+
     /** Current response parser state. */
     int (*out_state)(htp_connp_t *);
 
